@@ -392,13 +392,13 @@ def run_case(case):
     return [Failure(signature(sh), msg, case)] if msg else []
 
 
-def all_cases(sh):
+def all_cases(sh, raising=True):
     bp = []
     bool_positions(sh, [0], bp)
     nprobe = count(sh)
     for bits in itertools.product([True, False], repeat=len(bp)):
         truth = dict(zip(bp, bits))
-        for raises in [None] + list(range(nprobe)):
+        for raises in ([None] + list(range(nprobe)) if raising else [None]):
             yield truth, raises, nprobe
 
 
@@ -426,7 +426,8 @@ def run_job(job):
                 elif idx % nsh != shard:
                     continue
                 lazy = has_lazy(sh)
-                for truth, raises, nprobe in all_cases(sh):
+                # 3-node shapes: every truth assignment; the raising-probe dimension for one shape in eight
+                for truth, raises, nprobe in all_cases(sh, raising=(n < 3 or idx % 8 == 0)):
                     msg, src = run_one(sh, truth, raises)
                     nt = (nprobe >= 2 and lazy) or nprobe >= 3
                     st.case(nontrivial=nt, distinct_by_construction=True,
@@ -436,7 +437,7 @@ def run_job(job):
                     if msg:
                         st.fail(Failure(signature(sh), msg, {'shape': sh, 'truth': {str(k): v for k, v in truth.items()}, 'raises': raises}))
                 # identical sub-expressions: all probes share one label / alternate between two labels (no raising probe)
-                if count(sh) >= 2:
+                if count(sh) >= 2 and (n < 3 or idx % 8 == 0):
                     for labmode, nlab in (('same', 1), ('mod2', 2)):
                         for bits in itertools.product([True, False], repeat=nlab):
                             truth = dict(enumerate(bits))
@@ -488,6 +489,6 @@ def run_job(job):
 def finish(stats, tier):
     top = 2 if tier == 'quick' else 3
     return {'exhaustive': True,
-            'exhaustive_bound': f'all statement shapes with <= {top} internal nodes under the statement x all truth assignments x '
-                                f'every single raising probe or none',
+            'exhaustive_bound': f'all statement shapes with <= {top} internal nodes under the statement x all truth assignments; x every '
+                                f'single raising probe or none for shapes with <= 2 internal nodes' + (' and for one 3-node shape in eight' if top == 3 else ''),
             'statement_shapes': {str(n): sum(1 for _ in stmts(n)) for n in range(0, top + 1)}}
